@@ -86,7 +86,12 @@ pub mod iox {
         #[verifier::external_body]
         pub fn to_data(&self) -> (r: TensorData) ensures td_view(r) == tview(*self), td_dims(r) == tdims3(*self) { unimplemented!() }
     }
+    /// the content after `convert::<E>()` (it is the same content only when E is the stored element type, which this model cannot tell)
+    pub uninterp spec fn conv_view<E>(v: TView) -> TView;
     impl TensorData {
+        /// `convert::<E>()`: the elements converted (possibly lossily) to element type E
+        #[verifier::external_body]
+        pub fn convert<E>(self) -> (r: TensorData) ensures td_dims(r) == td_dims(self), td_view(r) == conv_view::<E>(td_view(self)) { unimplemented!() }
         /// `to_vec::<E>()`: Err when E is not the stored element type; else the elements in row-major order
         #[verifier::external_body]
         pub fn to_vec<E>(&self) -> (r: Result<Vec<E>, DataError>)
